@@ -224,14 +224,18 @@ def _impl_opgraph(case):
     except Exception as e:
         return _classify(e)
 
+_CLEAN = [False]
 def impl(case):
     from pyr import reset_pyrates
-    reset_pyrates()
+    if not _CLEAN[0]:                # a fresh worker, or the previous reset failed: every case leaves the caches reset
+        reset_pyrates()
+    _CLEAN[0] = False
     try:
         return {"config": _impl_config, "mutant": _impl_mutant, "vname": _impl_vname, "verify_path": _impl_verify_path,
                 "node_apply": _impl_node_apply, "opgraph": _impl_opgraph}[case["t"]](case)
     finally:
         reset_pyrates()
+        _CLEAN[0] = True
 
 # ---------------------------------------------------------------------------------------------- generators
 def config_cases(rng, tier):
